@@ -274,6 +274,22 @@ Theorem C17_fill_array_short_rejected : forall T (S : Scalar T) (d : deckm (T:=T
 Proof. exact @run_fill_array_short_rejected_anywhere. Qed.
 Print Assumptions C17_fill_array_short_rejected.
 
+(* the same at full strength: the array may use nR and nJ ([items]) and may be
+   followed by a keyword ([ends_array]: nothing, or a token that is neither a
+   number nor a shorthand) *)
+Theorem C17_fill_array_short_rejected_gen : forall T (S : Scalar T) (d : deckm (T:=T)) c e first rs t0 l rest b m,
+  In c (d_cells d) ->
+  (forall trs, stage_trs S (d_trs d) [] = Ok trs ->
+     exists k n, arrives S trs (c_toks c) kws0 (e :: first :: rs ++ t0 :: l ++ rest)%list k n) ->
+  prefix "imp" (tsp e) = false -> contains_sub "fill" (tsp e) = true ->
+  has_colon first = true -> forallb has_colon rs = true -> has_colon t0 = false ->
+  parse_ranges (map tsp (first :: rs)) = Ok b ->
+  plain t0 -> items l m -> ends_array rest ->
+  (Z.of_nat (1 + m) < bounds_size b)%Z ->
+  is_ok (validate S d) = false.
+Proof. exact @run_fill_array_short_rejected_gen. Qed.
+Print Assumptions C17_fill_array_short_rejected_gen.
+
 (* whatever parse_fill_kw accepts holds exactly as many universes as the ranges *)
 Theorem C17_fill_array_length_exact : forall T (S : Scalar T) star trs first r1 (fr : fillres) rest b,
   has_colon (T:=T) first = true -> parse_fill S star trs (first :: r1) = Ok (fr, rest) ->
